@@ -25,7 +25,7 @@ META = {
         "Rust side's inserts and dimensions combine through × ÷ ±. R11 (template formatters, let-bindings substituted): dates are pad2(day)/pad2(month)/year, "
         "tax years str(start)/pad2((start+1) rem 100), money is rounded with calc.round to 2 digits, written sign (value < 0), £, thousands groups of 3 "
         "joined by ',', '.', fraction, with the digits taken from |value|; quantities are rounded to 6 digits and only TRAILING zeros are stripped (`at: end`). "
-        "Typst's own calc.round/str semantics are trusted; the float conversion underneath stays known finding R2. R12: no front-end thins the parsed transactions before the calculation (retain/dedup/truncate/…): the year filter belongs to the calculator, after matching."),
+        "Typst's own calc.round/str semantics are trusted; the float conversion underneath stays known finding R2. R12: no front-end thins the parsed transactions before the calculation (retain/dedup/truncate/…): the year filter belongs to the calculator, after matching. R1 also: a figure is rounded once (the receiver of a presentation rounding contains no other rounding). R4 also: no template argument that is text carries a precision (it would clip an already formatted figure)."),
     "trusted_base": ["rust_decimal: round_dp is MidpointNearestEven; round_dp_with_strategy honours the strategy",
                      "core::fmt template encoding", "the Typst template (report.typ) is outside the analysis"],
 }
